@@ -159,7 +159,7 @@ def h_transparent(t, part):
     plan = []
     for k in range(n):
         op = t.choice(9)
-        plan.append((op, t.choice(2), t.int(-2, 2)))
+        plan.append((op, t.choice(2), t.choice(5) - 2))
 
     def run(instrumented):
         w = worlds.SWorld(asyncio_, async_handlers=False)
@@ -220,9 +220,9 @@ def h_transparent(t, part):
                         w.send(e2, w.P(packet.DISCONNECT))
                         live[e2] = None
             elif op == 2:
-                w.call(w.s.emit('news', (x, 'y'), room='room', skip_sid=live['e0'] if who else None))
+                api(lambda: w.s.emit('news', (x, 'y'), room='room', skip_sid=live['e0'] if who else None))
             elif op == 3 and sid:
-                w.call(w.s.emit('question', x, to=sid, callback=lambda *a: cbs.append(a)))
+                api(lambda: w.s.emit('question', x, to=sid, callback=lambda *a: cbs.append(a)))
                 q = [p for p in worlds.decode_frames(w.P, w.frames(e)) if not isinstance(p, tuple) and p.packet_type == packet.EVENT
                      and p.data[0] == 'question']
                 if q and q[-1].id is not None:
@@ -251,8 +251,9 @@ def h_transparent(t, part):
             return [rename(v, names) for v in d]
         return names.get(d, d) if isinstance(d, str) else d
 
-    plain = run(False)
-    inst = run(True)
+    with notrace():
+        plain = run(False)
+        inst = run(True)
     t.reached('transparent')
     t.note(plan)
     for key in ('packets', 'handlers', 'callbacks', 'rooms', 'contained'):
